@@ -21,6 +21,8 @@ grouping used in several config contexts with augments by different modules into
   print   (implementation, harness/go/c12.go print12) Entry.Print is started at EVERY entry of every tree, rpc/action
           input and output entries included; the RO:/rw: marker of every printed line must be the read-only flag of that
           node.
+  history (implementation) for sets with submodules: everything except the modules that own submodules is loaded and
+          processed, then the owners are loaded and everything is processed again; the final dump must be the batch dump.
 Both departures found while building this check are fixed in /repo (D58 c376f44; D59 20ac024: the implicit case around a
 shorthand member grafted by another module's augment reported the augmented module's namespace); a recurrence is a
 violation.
@@ -224,9 +226,17 @@ def build(schema):
         for io in (x.inp, x.out):
             if io is not None:
                 wrap(io)
+    while True:                       # rounds: an augment path may lead through a case that the wrapping inserts
+        for r in trees.values():
+            wrap(r)
+        before = len(pending)
+        if not pending:
+            break
+        sweep(True)
+        if len(pending) == before:
+            break
     for r in trees.values():
         wrap(r)
-    sweep(True)
     if pending:
         raise Skip("augment without target")
     return trees
@@ -375,6 +385,31 @@ def print_check(res, work, stats):
                               % (pos, got.get(pos), want[pos]), dict(rep, start=pos, got=got.get(pos), want=want[pos]))
 
 
+def history_check(res, work, stats):
+    """submodules first: every text except the modules that own submodules is loaded and processed (errors expected:
+    the submodules' modules are missing), then the owners are loaded and everything is processed again; the result
+    must be the batch result (dump incl. namespace, read-only flag, instantiating module of every node)"""
+    cases, sel = [], []
+    for sc, canon in work:
+        owners = {m["belongs"] for m in sc if m["belongs"] is not None}
+        if not owners:
+            continue
+        first = [i for i, m in enumerate(sc) if m["name"] not in owners]
+        rest = [i for i, m in enumerate(sc) if m["name"] in owners]
+        ops = ",".join(["L%d" % i for i in first] + ["P"] + ["L%d" % i for i in rest] + ["P"])
+        cases.append(sg.go_case(sc, ops=ops))
+        sel.append((sc, canon, ops))
+    outs = lib.run_go(cases)
+    bad = 0
+    for (sc, canon, ops), o in zip(sel, outs):
+        st, c2, _ = sg.canon_go(o)
+        stats["history_sets"] += 1
+        if (st != "ok" or c2 != canon) and bad < 3:
+            bad += 1
+            res.violation("submodules loaded and processed before their modules (%s): the final dump differs from the batch "
+                          "dump: %s vs %s" % (ops, (c2 or st)[:200], canon[:200]), dict(kind="history", schema=sc, ops=ops, impl=c2, batch=canon))
+
+
 def oracle_check(res, schema, run, stats):
     try:
         trees = build(schema)
@@ -455,6 +490,13 @@ def feature_schemas():
                 _m("b", "b", "urn:b", imports=[("a", "a")], augments=[("/a:state/a:hook", [_lf("counters")])]),
                 _m("c", "c", "urn:c", imports=[("a", "a")], augments=[("/a:cfg/a:hook", [("container", "knobs", None, [_lf("knob")])])]),
                 _m("d", "d", "urn:d", imports=[("a", "a")], augments=[("/a:run/a:output/a:hook", [_lf("result")])])])
+    # a submodule that augments another module's tree (and its own module's), written with uses of its module's grouping
+    out.append([_m("t", "t", "urn:t", body=[("container", "c", None, [_lf("n")]), ("choice", "tch", None, None, None, [_lf("tm")])]),
+                _m("m", "m", "urn:m", includes=["ms1"], body=[("container", "own", None, [_lf("o")]),
+                                                              ("grouping", 3, "mg", [_lf("gl", False)])]),
+                _m("ms1", "m", "", belongs="m", imports=[("t", "t")],
+                   augments=[("/t:c", [_lf("fromsub"), ("container", "subc", False, [_lf("deep")])]),
+                             ("/t:tch", [_lf("subm")]), ("/m:own", [_lf("intoown")])])])
     # two modules with one namespace: InstantiatingModule fails for both trees
     out.append([_m("p", "p", "urn:same", body=[_lf("x")]), _m("q", "q", "urn:same", body=[_lf("y")])])
     return out
@@ -521,7 +563,11 @@ def hook_schemas(rnd, n):
 
 def gen_schemas(rnd, n):
     """(schema, with_oracle)"""
+    from props import c17
     out = [(s, True) for s in hook_schemas(rnd, max(12, n // 12))]
+    # augments over several rounds of {augment, FixChoice} that graft shorthand choice members: every member needs its
+    # implied case, attributed to the augmenting module
+    out += [(s, True) for s in c17.late_augment_schemas(rnd, max(12, n // 12))]
     for i in range(n):
         r = rnd.random()
         if r < 0.35:
@@ -538,12 +584,12 @@ def run(res, tier, seed, proof):
     n = 320 if tier == "quick" else 6000
     stats = dict(status={}, oracle_skipped={}, oracle_sets=0, oracle_nodes=0, foreign_ns_nodes=0, ro_nodes=0,
                  tie_ok=0, tie_err=0, spec_nodes=0, pinned_walk_differs=0, config_true_below_output_nodes=0,
-                 print_starts=0, print_lines=0)
+                 print_starts=0, print_lines=0, history_sets=0)
     sets = [(s, True) for s in feature_schemas()] + gen_schemas(rnd, n)
     mism = 0
     for i in range(0, len(sets), 500):
         part = sets[i:i + 500]
-        spec_work = []
+        spec_work, hist_work = [], []
         go = lib.run_go([sg.go_case(sc) for sc, _ in part])
         ml = lib.run_ml([sg.model_case(sc) for sc, _ in part])
         for (sc, with_oracle), g, m in zip(part, go, ml):
@@ -565,8 +611,10 @@ def run(res, tier, seed, proof):
                 oracle_check(res, sc, j["runs"][-1], stats)
             if st == "ok":
                 spec_work.append((sc, j["runs"][-1]))
+                hist_work.append((sc, canon))
         spec_check(res, spec_work, stats)
         print_check(res, spec_work, stats)
+        history_check(res, hist_work, stats)
     clean = stats["status"].get("ok", 0)
     cov = dict(
         evaluations=len(sets) + stats["oracle_nodes"] + stats["spec_nodes"], distinct_nontrivial=stats["oracle_nodes"],
@@ -580,7 +628,7 @@ def run(res, tier, seed, proof):
                           oracle_sets=stats["oracle_sets"], oracle_nodes=stats["oracle_nodes"],
                           nodes_with_foreign_namespace=stats["foreign_ns_nodes"], read_only_nodes=stats["ro_nodes"],
                           oracle_skipped=stats["oracle_skipped"], spec_nodes=stats["spec_nodes"],
-                          print_starts=stats["print_starts"], printed_lines_checked=stats["print_lines"],
+                          history_sets=stats["history_sets"], print_starts=stats["print_starts"], printed_lines_checked=stats["print_lines"],
                           nodes_where_pinned_walk_differs=stats["pinned_walk_differs"],
                           nodes_with_config_true_below_output=stats["config_true_below_output_nodes"]),
         samples=[sg.render_module(m)[:300] for m in sets[0][0][:2]],
@@ -607,9 +655,14 @@ def replay(rep, res):
     print("impl :", (want or st)[:2000])
     print("model:", m[:2000])
     rc = 0 if m == want else 1
+    if rep.get("kind") == "history":
+        o = lib.run_go([sg.go_case(sc, ops=rep["ops"])])[0]
+        c2 = sg.canon_go(o)[1]
+        print("history %s: %s" % (rep["ops"], "same as batch" if c2 == canon else (c2 or "")[:2000]))
+        rc = rc or (0 if c2 == canon else 1)
     if st == "ok" and rep.get("kind") == "print":
         r2 = lib.Result("C12", "quick", 0)
-        print_check(r2, [(sc, j["runs"][-1])], dict(print_starts=0, print_lines=0))
+        print_check(r2, [(sc, j["runs"][-1])], dict(print_starts=0, print_lines=0, history_sets=0))
         for what, _, _ in r2.violations:
             print("print:", what)
             rc = 1
